@@ -363,6 +363,37 @@ func c08EncodeNamed(res *vlib.Result, attrNames []string, exprs []string, st c09
 			}
 		}
 	}
+	// the bounded parsing receiver, for every budget from 1 byte to past the size of the
+	// ad: it either refuses, or returns the whole ad (type names included) having
+	// consumed exactly the ad's bytes - never a partial ad, never a desync
+	if !pad && !private && len(sb.W) < 600 {
+		for budget := 1; budget <= len(sb.W)+4; budget++ {
+			rb := &netsim.Buf{R: append([]byte(nil), sb.W...)}
+			rm := message.NewMessageFromStream(c09Stream(st, rb))
+			got, err := rm.GetClassAdWithMaxSize(ctx, budget)
+			res.Evals++
+			if err != nil {
+				continue
+			}
+			if s, e2 := rm.GetInt(ctx); e2 != nil || s != 31337 {
+				res.Violate(key("bounded-bytes-consumed"), "ad %v: GetClassAdWithMaxSize(%d) returned an ad without error but did not consume exactly the ad (sentinel read %d, %v)", exprs, budget, s, e2)
+				break
+			}
+			for _, n := range names {
+				if _, ok := got.Lookup(n); !ok {
+					res.Violate(key("bounded-attr-lost"), "ad %v: GetClassAdWithMaxSize(%d) succeeded without attribute %s", exprs, budget, n)
+				}
+			}
+			if withTypes {
+				mt, _ := got.EvaluateAttrString("MyType")
+				tt, _ := got.EvaluateAttrString("TargetType")
+				if mt != "Machine" || tt != "Job" {
+					res.Violate(key("bounded-types-lost"), "ad %v: GetClassAdWithMaxSize(%d) succeeded with MyType=%q TargetType=%q", exprs, budget, mt, tt)
+					break
+				}
+			}
+		}
+	}
 	res.Outcome("encode-ok")
 }
 
@@ -401,7 +432,7 @@ func c08Extremes() []string {
 func C08Plan() *vlib.Plan {
 	p := &vlib.Plan{
 		Property: "C08", Level: "exploration",
-		Rule:   "E-ENUM. Decode side: every string of length <= L over the 17-symbol alphabet {0 1 9 - + . e E x p _ \" \\ a t T space} as the value text of one attribute, framed by the reference and read by the real GetClassAd; oracle = full parser (same structure, or same defined value) / independent old-style lone-string rule / must reject; plus ~3000 decorated numerals at and around 2^31, 2^32, 2^53, 2^63, 2^64, 2^127, 2^128, 10^17..10^22 and the float64 limits. Encode side: every expression of a bounded grammar (literals incl. integer/real extremes, strings with quotes/backslashes/controls/UTF-8, refs, unary, binary, ?:, strcat, lists, nested ads; depth <= D) in ads of 1-2 attributes, with/without type names, single- and multi-frame, 3 stream states, through GetClassAd / GetClassAdRaw+ParseOld / SkipClassAdRaw each followed by a sentinel; plus 14 attribute names that resemble wire-layout pieces (ZKM, ZKMode, zkm, MyTypeX, ...) x 6 values through the same three receivers. Non-trivial = text accepted by the parser (decode) / ad sent (encode).",
+		Rule:   "E-ENUM. Decode side: every string of length <= L over the 17-symbol alphabet {0 1 9 - + . e E x p _ \" \\ a t T space} as the value text of one attribute, framed by the reference and read by the real GetClassAd; oracle = full parser (same structure, or same defined value) / independent old-style lone-string rule / must reject; plus ~3000 decorated numerals at and around 2^31, 2^32, 2^53, 2^63, 2^64, 2^127, 2^128, 10^17..10^22 and the float64 limits. Encode side: every expression of a bounded grammar (literals incl. integer/real extremes, strings with quotes/backslashes/controls/UTF-8, refs, unary, binary, ?:, strcat, lists, nested ads; depth <= D) in ads of 1-2 attributes, with/without type names, single- and multi-frame, 3 stream states, through GetClassAd / GetClassAdRaw+ParseOld / SkipClassAdRaw each followed by a sentinel; plus 14 attribute names that resemble wire-layout pieces (ZKM, ZKMode, zkm, MyTypeX, ...) x 6 values through the same three receivers; every non-padded ad is also read by the bounded receiver GetClassAdWithMaxSize(b) for every budget b from 1 to past the ad's size (refuse, or return the whole ad having consumed exactly its bytes). Non-trivial = text accepted by the parser (decode) / ad sent (encode).",
 		Assume: []string{"reference = github.com/PelicanPlatform/classad ParseExpr (the 'full parser' of the statement)"},
 	}
 	p.Gen = func(tier string, yield func(vlib.Case)) {
